@@ -20,9 +20,10 @@ PYDIR = os.path.join(REPO, "src", "exp2python", "python")
 DRV = os.path.join(VERIF, "harness", "py", "pyaggr_drv.py")
 
 
-def gen_cfg(vals, maxlo, maxspan, maxlen):
-    return ("CONSTANTS Vals = {%s} Bad = 99 MaxLo = %d MaxSpan = %d MaxLen = %d\nINIT Init\nNEXT Next\n"
-            "CONSTRAINT Bound\nINVARIANT Emit\n" % (", ".join(map(str, vals)), maxlo, maxspan, maxlen))
+def gen_cfg(vals, maxlo, maxspan, maxlen, twin=1):
+    """twin: how often the ill-typed value that compares equal to a well-typed one may occur in a scenario"""
+    return ("CONSTANTS Vals = {%s} Bad = 99 MaxLo = %d MaxSpan = %d MaxLen = %d TwinMax = %d\nINIT Init\nNEXT Next\n"
+            "CONSTRAINT Bound\nINVARIANT Emit\n" % (", ".join(map(str, vals)), maxlo, maxspan, maxlen, twin))
 
 
 def cfgname(c):
@@ -81,11 +82,15 @@ def run(ctx):
         if len(chunk) >= 4000:
             flush()
 
-    g = tlc.run_tlc("PyAggr_Gen", None, cfg_text=gen_cfg([1, 2], 2, 1, L), workers=4, timeout=3000, on_case=on_case)
+    # the twin value rides on the length-3 family (in both tiers); the longer thorough families keep the plain value pool
+    g = tlc.run_tlc("PyAggr_Gen", None, cfg_text=gen_cfg([1, 2], 2, 1, 3, twin=1), workers=4, timeout=3000, on_case=on_case)
     if g.rc != 0 or g.errors:
         raise InfraError("PyAggr_Gen failed: %s %s" % (g.rc, g.tail[-10:]))
     if not q:
-        g = tlc.run_tlc("PyAggr_Gen", None, cfg_text=gen_cfg([1, 2, 3], 1, 2, 3), workers=4, timeout=3000, on_case=on_case)
+        g = tlc.run_tlc("PyAggr_Gen", None, cfg_text=gen_cfg([1, 2], 2, 1, L, twin=0), workers=4, timeout=3000, on_case=on_case)
+        if g.rc != 0 or g.errors:
+            raise InfraError("PyAggr_Gen failed: %s %s" % (g.rc, g.tail[-10:]))
+        g = tlc.run_tlc("PyAggr_Gen", None, cfg_text=gen_cfg([1, 2, 3], 1, 2, 3, twin=0), workers=4, timeout=3000, on_case=on_case)
         if g.rc != 0 or g.errors:
             raise InfraError("PyAggr_Gen failed: %s %s" % (g.rc, g.tail[-10:]))
     # declarations on their own, legal or not
@@ -126,7 +131,8 @@ def run(ctx):
         "distinct_nontrivial": counts["scen"],
         "rule": "every legal declaration (kind x lo 0..2 x hi lo..lo+1 or unbounded x UNIQUE x OPTIONAL) x every "
                 "operation sequence of length %d (BAG/SET: %d) over the index window (one beyond each bound) and "
-                "the value pool (2 well-typed + 2 ill-typed, one of which compares equal to a well-typed value); each scenario distinct by construction" % (L, L + 3),
+                "the value pool (2 well-typed + 1 ill-typed); the length-3 family (BAG/SET: 6) additionally with the ill-typed "
+                "value that compares equal to a well-typed one, once per scenario; each scenario distinct by construction" % (L, L + 3),
     })
     return {"level": "model_checking", "coverage": cov, "assumptions": [
         "the runtime has no element removal, so that part of the quantifier is vacuous",
